@@ -13,4 +13,6 @@ const stateHook = false
 
 func stateDump(w io.Writer, t *iavl.MutableTree) {}
 
+func immutableDump(w io.Writer, t *iavl.ImmutableTree) {}
+
 func storageVersionLabel(t *iavl.MutableTree) string { return "" }
